@@ -9,7 +9,7 @@ FORCES = [dict(n_live=10, n_update=1, n_batch=2, n_networks=0, family='gauss', n
           for (b, v, po, pi, nb, pl) in [('float', False, False, True, 1, None), ('int', True, False, False, 2, None), ('vec1', False, True, False, 7, None),
                                          ('vec3', True, True, False, 7, None), ('two', False, False, True, 20, 2), ('none', False, False, False, 1, None),
                                          ('float', True, False, True, 7, None), ('two', True, True, False, 2, None), ('vec3', False, False, False, 1, 2),
-                                         ('int', False, True, False, 20, None), ('vec1', True, False, True, 1, None), ('float', False, False, False, 7, 2)]]
+                                         ('int', False, True, False, 20, 'executor'), ('vec1', True, False, True, 1, None), ('float', False, False, False, 7, 2), ('two', False, False, False, 20, 'executor')]]
 
 
 def main(run: Run, audit):
